@@ -544,6 +544,7 @@ func (n *TreeNodeInstance) dispatchMsgReader() {
 		} else {
 			n.msgDispatchQueueMutex.Unlock()
 			log.Lvl4(n.Info(), "Waiting for message")
+			verifAt("tni.beforeWait", n)
 			// Allow for closing of the channel
 			select {
 			case <-n.msgDispatchQueueWait:
